@@ -28,8 +28,8 @@ TEXT = {
             "full"),
     "C10": ("Proved: C10_response_roundtrip (every well-formed response value), C10_request_roundtrip (generic in the URI implementation under the URI law at the target) and C10_request_roundtrip_rhymuri (the rhymuri model, every origin-form path with arbitrary segment bytes), with the percent-codec inverse for every byte string. Query, fragment, `*`, authority forms and configured limits: correspondence (model = implementation on the URI grammar) and the implementation-side round-trip oracle. Known finding KF3 (rhymuri display/parse).",
             "partial"),
-    "C11": ("Proved: C11_headers_reparse (the parsed header list is a well-formed value that re-parses to itself), C11_request_reparse_partial / _rhymuri (whole chain for every accepted request with ASCII method), C12_content_length for the de-chunked form. Responses and non-ASCII methods: implementation-side chain oracle and correspondence. Known finding KF3.",
-            "partial"),
+    "C11": ("Proved: C11_request_reparse — for every accepted request (any method the parser accepts, non-ASCII included; any limits on the first parse; any limits the regenerated line and total fit on the second) generate + parse returns the same method, target, header list and body with the whole output consumed, under the URI law at the parsed target (proved for the rhymuri model on origin-form paths: C11_request_reparse_rhymuri); C11_response_reparse_plain (declared-length and body-less responses, any reason phrase, any header line limit) and C11_response_reparse_dechunked (the de-chunked message regenerates to a Content-Length-framed message with Content-Length = length of the de-chunked body that parses back to the same fields); C11_headers_reparse. Supporting: UTF-8 validity survives a cut at an ASCII byte (validUtf8_cut_left, validUtf8_ascii_append, against core's IsValidUTF8), well-formedness of the rewritten header list (rewritten_wf). Known finding KF3 (rhymuri display/parse) is where the URI law fails.",
+            "full for responses; requests under the URI law (dependency finding KF3 where it fails)"),
     "C12": ("Proved by header-list algebra for every original header list, every list of other codings and every trailer list: C12_content_length, C12_transfer_encoding, C12_no_trailer, C12_others; plus an independent post-condition checker on the implementation.",
             "full"),
     "C13": ("Proved: C13_stack (rhymuweb's own stack logic for any inverse pair of codecs, any token spelling), inversion of the modelled inflate / zlib / gzip for stored-block streams of any size (C13_inflate_stored_blocks, C13_zlib_stored_blocks, C13_gzip_stored_blocks), end to end for every stack of level-0 layers up to decode_body (C13_level0_stacks, C13_decodeBody_level0_stacks). Huffman-coded blocks (levels 1-9) rest on correspondence: model inflate = flate2 on streams from an independent encoder (CPython zlib, all levels and strategies, flush points) and hand-rolled containers.",
